@@ -42,6 +42,7 @@
 -/
 import GherkinVerif.Lemmas.ParseElems
 import GherkinVerif.Props.C03Doc
+import GherkinVerif.KDecide
 namespace GV
 open Spec
 
@@ -278,10 +279,10 @@ theorem C03_own_texts (toks : Kind → List Token) (descrs : List Str) (line sep
 
 /-- `start_rule(Description)` ends its production list with `build`, in `Other` / `Comment` tests between
     states that are not doc-string content states -/
-theorem C03F_fact_desc_start : Spec.descStartFacts Gen.parserTable = true := by decide +kernel
+theorem C03F_fact_desc_start : Spec.descStartFacts Gen.parserTable = true := by kdecide
 /-- inside a `Description` node every test starts with an `end_rule` or is a build-only `Other` /
     `Comment` self-loop -/
-theorem C03F_fact_desc_body : Spec.descBodyFacts Gen.parserTable = true := by decide +kernel
+theorem C03F_fact_desc_body : Spec.descBodyFacts Gen.parserTable = true := by kdecide
 
 theorem C03F_desc_facts : Lemmas.DescFacts Gen.parserTable := ⟨C03F_fact_desc_start, C03F_fact_desc_body⟩
 
@@ -358,7 +359,7 @@ example : (MState.init Gen.dialects (lit "en")).map (fun μ =>
       .tag ⟨11, some 5⟩ (lit "@t"), .tag ⟨11, some 8⟩ (lit "@u"),
       .keywordLine .ExamplesLine ⟨13, some 5⟩ (lit "Exemples") [],
       .row ⟨14, some 7⟩ [(⟨14, some 9⟩, lit "a")],
-      .row ⟨15, some 7⟩ [(⟨15, some 9⟩, lit "1")]] := by decide +kernel
+      .row ⟨15, some 7⟩ [(⟨15, some 9⟩, lit "1")]] := by kdecide
 
 /-- … and they are the concatenation of the elements of the built tokens, line by line (the
     closing separator on line 8 and the content line `Given y` contribute nothing) -/
@@ -366,7 +367,7 @@ example : (MState.init Gen.dialects (lit "en")).map (fun μ =>
       let r := parseWith Gen.dialects Gen.parserTable false μ 5 C03P_demo
       match r.1 with
       | .ok d => decide (srcElems d = r.2.builds.dropLast.flatMap lineElems)
-      | _ => false) = some true := by decide +kernel
+      | _ => false) = some true := by kdecide
 
 /-- the state in force at the feature line (line index 2) of the demo is the French one although
     the matcher was made for `en`: the header on line 1 switched it -/
@@ -375,13 +376,13 @@ example : (MState.init Gen.dialects (lit "en")).map (fun μ =>
       let μ2 := stateAt Gen.dialects (μ.reset Gen.dialects) (splitLines C03P_demo) r.2.builds.dropLast 2
       (μ2.name, μ2.dialect.name, (stateAt Gen.dialects (μ.reset Gen.dialects) (splitLines C03P_demo)
         r.2.builds.dropLast 6).activeSep)) =
-    some (lit "fr", lit "fr", some dq3) := by decide +kernel
+    some (lit "fr", lit "fr", some dq3) := by kdecide
 
 /-- `ElemFromLine` on a concrete line: Slovak lists `"A "` before `"A tiež "`, so the step is reported
     with the shorter keyword and the text starts with `tiež` (cf. `C05_step_first_prefix`) -/
 example : (MState.init Gen.dialects (lit "sk")).map (fun μ =>
       lineElems (matchLine Gen.dialects .StepLine μ (freshTok (lit "  A tiež niečo \r\n") 7) (lit "  A tiež niečo \r\n")).tok) =
-    some [.step ⟨7, some 3⟩ (lit "A ") .Conjunction (lit "tiež niečo")] := by decide +kernel
+    some [.step ⟨7, some 3⟩ (lit "A ") .Conjunction (lit "tiež niečo")] := by kdecide
 
 /-- a document with a two-line description followed by a blank line and a comment, a scenario
     without description, a doc string whose content is indented more than its delimiter and holds an
@@ -397,7 +398,7 @@ example : (MState.init Gen.dialects (lit "en")).map (fun μ =>
       | .ok d => srcTexts d
       | _ => []) =
     some [(⟨1, some 1⟩, lit "  free text\n   more "), (⟨6, some 3⟩, []),
-      (⟨8, some 7⟩, lit " a\n\"\"\""), (⟨12, some 3⟩, lit "  e")] := by decide +kernel
+      (⟨8, some 7⟩, lit " a\n\"\"\""), (⟨12, some 3⟩, lit "  e")] := by kdecide
 
 end examples
 
